@@ -100,6 +100,51 @@ func (an *Analysis) liveLeaves(pr *Pruned, v ssa.Value) []ssa.Value {
 	return out
 }
 
+// liveLeavesInter: liveLeaves, continuing from a parameter into the corresponding argument at every live call site of
+// the function inside `scope` (each caller pruned under the same assumption).
+func (an *Analysis) liveLeavesInter(fn *ssa.Function, assume Assume, v ssa.Value, scope map[*ssa.Function]bool, depth int) []ssa.Value {
+	pr := an.Prune(fn, assume)
+	var out []ssa.Value
+	for _, l := range an.liveLeaves(pr, v) {
+		p, isParam := l.(*ssa.Parameter)
+		if !isParam || depth > 4 {
+			out = append(out, l)
+			continue
+		}
+		idx := paramIndex(fn, p)
+		expanded := false
+		for _, cs := range an.P.Callers(fn) {
+			if !scope[cs.Caller] {
+				continue
+			}
+			prc := an.Prune(cs.Caller, assume)
+			if !prc.LiveBlock[cs.Instr.Block().Index] {
+				continue
+			}
+			if a := argForParam(cs.Instr.Common(), fn, idx); a != nil {
+				expanded = true
+				out = append(out, an.liveLeavesInter(cs.Caller, assume, a, scope, depth+1)...)
+			}
+		}
+		if !expanded {
+			out = append(out, l)
+		}
+	}
+	return out
+}
+
+func isFileWrite(cc *ssa.CallCommon) (dataArg int, ok bool) {
+	switch {
+	case callIsMethod(cc, "os", "File", "Write"):
+		return 1, true
+	case callIsMethod(cc, "os", "Root", "WriteFile"):
+		return 2, true
+	case callIsPkgFunc(cc, "os", "WriteFile"):
+		return 1, true
+	}
+	return 0, false
+}
+
 func ruleC17_1(c *Ctx) {
 	ei := c.encIface()
 	if ei == nil {
@@ -107,101 +152,109 @@ func ruleC17_1(c *Ctx) {
 		return
 	}
 	n := 0
-	for _, fn := range c.fsBackendFuncs() {
-		var write ssa.Instruction
-		var dataArg ssa.Value
-		instrsOf(fn, func(in ssa.Instruction) {
-			cc := callOf(in)
-			if cc == nil {
-				return
-			}
-			if callIsMethod(cc, "os", "File", "Write") {
-				write, dataArg = in, cc.Args[1]
-			}
-			if callIsMethod(cc, "os", "Root", "WriteFile") {
-				write, dataArg = in, cc.Args[2]
-			}
-			if callIsPkgFunc(cc, "os", "WriteFile") {
-				write, dataArg = in, cc.Args[1]
+	for _, fenc := range c.fsBackendFuncs() {
+		var encCall *ssa.Call
+		instrsOf(fenc, func(in ssa.Instruction) {
+			if call, ok := in.(*ssa.Call); ok && call.Call.IsInvoke() && call.Call.Method.Name() == "Encrypt" && isNamed(call.Call.Value.Type(), ei) {
+				encCall = call
 			}
 		})
-		if write == nil {
+		if encCall == nil {
 			continue
 		}
 		n++
-		where := c.P.ShortName(fn) + "@" + c.P.InstrPos(write)
-		// enc != nil
-		pr := c.An.Prune(fn, func(a *Atom) (bool, bool) {
-			if isEncNil(a) && isNamed(a.Val.Type(), ei) {
-				return false, true
+		scope := map[*ssa.Function]bool{}
+		tree := c.reachableFrom(fenc)
+		for _, g := range tree {
+			scope[g] = true
+		}
+		var encErr ssa.Value
+		if refs := encCall.Referrers(); refs != nil {
+			for _, r := range *refs {
+				if ex, ok := r.(*ssa.Extract); ok && ex.Index == 1 {
+					encErr = ex
+				}
+			}
+		}
+		okAssume := func(a *Atom) (bool, bool) {
+			if isEncNil(a) && a.Val != nil && isNamed(a.Val.Type(), ei) {
+				return false, true // enc != nil
 			}
 			if a.Key == "nil:err" {
-				return true, true // success path of Encrypt
+				return true, true // success path
 			}
 			return false, false
-		})
-		leaves := c.An.liveLeaves(pr, dataArg)
-		okAll := len(leaves) > 0
-		var bad string
-		for _, l := range leaves {
-			ex, ok := l.(*ssa.Extract)
-			if ok {
-				if call, ok := ex.Tuple.(*ssa.Call); ok && call.Call.IsInvoke() && call.Call.Method.Name() == "Encrypt" && ex.Index == 0 {
-					continue
+		}
+		nw := 0
+		for _, g := range tree {
+			instrsOf(g, func(in ssa.Instruction) {
+				cc := callOf(in)
+				if cc == nil {
+					return
 				}
-			}
-			okAll = false
-			bad = l.String()
-		}
-		desc := "with an encryptor configured, the bytes written to the file are Encrypt's result"
-		if okAll {
-			c.Pass("C17.1", "encrypt-before-write fn="+c.P.ShortName(fn), desc, where)
-		} else {
-			c.Fail("C17.1", "encrypt-before-write fn="+c.P.ShortName(fn), desc, where+": under {enc != nil} the written bytes can be `"+bad+"` (plaintext on disk)", where)
-		}
-		// an Encrypt error returns before any file is created
-		var encErr ssa.Value
-		instrsOf(fn, func(in ssa.Instruction) {
-			if call, ok := in.(*ssa.Call); ok && call.Call.IsInvoke() && call.Call.Method.Name() == "Encrypt" {
-				if refs := call.Referrers(); refs != nil {
-					for _, r := range *refs {
-						if ex, ok := r.(*ssa.Extract); ok && ex.Index == 1 {
-							encErr = ex
-						}
+				di, ok := isFileWrite(cc)
+				if !ok {
+					return
+				}
+				nw++
+				where := c.P.ShortName(g) + "@" + c.P.InstrPos(in)
+				leaves := c.An.liveLeavesInter(g, okAssume, cc.Args[di], scope, 0)
+				okAll := len(leaves) > 0
+				bad := ""
+				for _, l := range leaves {
+					if ex, ok := l.(*ssa.Extract); ok && ex.Tuple == ssa.Value(encCall) && ex.Index == 0 {
+						continue
 					}
+					okAll = false
+					bad = l.String()
 				}
-			}
-		})
+				desc := "with an encryptor configured, the bytes written to the file are Encrypt's result"
+				if okAll {
+					c.Pass("C17.1", "encrypt-before-write fn="+c.P.ShortName(fenc), desc, where)
+				} else {
+					c.Fail("C17.1", "encrypt-before-write fn="+c.P.ShortName(fenc), desc, where+": under {enc != nil} the written bytes can be `"+bad+"` (plaintext on disk)", where)
+				}
+			})
+		}
+		if nw == 0 {
+			c.Undecided("C17.1", "encrypt-before-write fn="+c.P.ShortName(fenc), "the write path writes a file", "no file write reachable from "+c.P.ShortName(fenc))
+		}
 		desc2 := "an encryption failure aborts the write before a file is created"
 		if encErr == nil {
-			c.Fail("C17.1", "encrypt-error-aborts fn="+c.P.ShortName(fn), desc2, where+": the Encrypt error is not examined")
+			c.Fail("C17.1", "encrypt-error-aborts fn="+c.P.ShortName(fenc), desc2, c.P.ShortName(fenc)+": the Encrypt error is not examined")
 			continue
 		}
-		pr2 := c.An.Prune(fn, func(a *Atom) (bool, bool) {
+		pr2 := c.An.Prune(fenc, func(a *Atom) (bool, bool) {
 			if a.Key == "nil:err" && c.An.sameCanon(a.Val, encErr) {
 				return false, true
 			}
-			if isEncNil(a) && isNamed(a.Val.Type(), ei) {
+			if isEncNil(a) && a.Val != nil && isNamed(a.Val.Type(), ei) {
 				return false, true
 			}
 			return false, false
 		})
+		isCreate := func(in ssa.Instruction) bool {
+			cc := callOf(in)
+			if cc == nil {
+				return false
+			}
+			_, ok := isFileCreate(cc)
+			return ok
+		}
 		live := false
 		pr2.LiveInstrs(func(in ssa.Instruction) {
-			if cc := callOf(in); cc != nil {
-				if _, ok := isFileCreate(cc); ok {
-					live = true
-				}
+			if _, leads := c.An.LeadsTo("FILE-CREATE", in, isCreate, false); leads {
+				live = true
 			}
 		})
 		if live {
-			c.Fail("C17.1", "encrypt-error-aborts fn="+c.P.ShortName(fn), desc2, where+": file creation reachable with the Encrypt error set")
+			c.Fail("C17.1", "encrypt-error-aborts fn="+c.P.ShortName(fenc), desc2, c.P.ShortName(fenc)+": file creation reachable with the Encrypt error set")
 		} else {
-			c.Pass("C17.1", "encrypt-error-aborts fn="+c.P.ShortName(fn), desc2, where)
+			c.Pass("C17.1", "encrypt-error-aborts fn="+c.P.ShortName(fenc), desc2, c.P.ShortName(fenc))
 		}
 	}
 	if n == 0 {
-		c.Undecided("C17.1", "vacuity", "the write path writes a file", "no file write found")
+		c.Fail("C17.1", "encrypt-call", "the write path calls Encrypt", "no call of the encryptor's Encrypt in store/fscache: values are written in plaintext")
 	}
 }
 
